@@ -34,7 +34,15 @@ def plan(tier, seed):
 
 
 def make_comment(rng, kind):
-    txt = layout.comment_text(rng).replace(b']', b')')
+    txt = bytearray(layout.comment_text(rng).replace(b']', b')'))
+    if rng.random() < 0.3:
+        # tabs and the glyphs below 0x20 are comment text like any other (a tab after the dashes, columns aligned with tabs)
+        for _ in range(rng.randint(1, 3)):
+            pos = rng.randrange(len(txt) + 1)
+            txt[pos:pos] = rng.choice((b'\t', b'\t', b'\t\t', bytes([rng.choice(range(14, 32))]), b'\x7f', b' \t '))
+        if txt[:1] == b'[':
+            txt[0:0] = b' '
+    txt = bytes(txt)
     if kind == 'dash':
         return b'--' + txt
     if kind == 'slash':
@@ -108,10 +116,16 @@ def check_one(ctx, src, scopes, config, case):
                     main = os.path.join(tmpb, 'main.lua')
                     with open(main, 'wb') as fh:
                         fh.write(src)
-                    outp = os.path.join(tmpb, ambient.BASE[0] + '.p8')
+                    png = ctx.monitors.get('build_minify_runs', 0) % 3 == 2 and b'\x00' not in src
+                    outp = os.path.join(tmpb, ambient.BASE[0] + ('.p8.png' if png else '.p8'))
                     if tool.main([ambient.vflag(), 'build', outp, '--lua', main, '--lua-minify']):
                         raise RuntimeError('p8tool build --lua-minify failed')
-                    out = rc.read_p8(open(outp, 'rb').read())['code']
+                    if png:
+                        r = rc.read_p8png(open(outp, 'rb').read())
+                        out = rc.strip_future(rc.decode_code_area(r['code_area'], r['version']))
+                        ctx.feature('build_minify_png_carts')
+                    else:
+                        out = rc.read_p8(open(outp, 'rb').read())['code']
                     if not src.endswith(b'\n') and out.endswith(b'\n'):
                         out = out[:-1]
                 finally:
@@ -123,13 +137,26 @@ def check_one(ctx, src, scopes, config, case):
                 from pico8 import tool
                 from .. import refcodec as rc, carts
                 regions, _ = carts.random_regions(ctx.rng, 'zero')
-                p1 = os.path.join(tmpd, ambient.BASE[0] + '.p8')
+                png = ctx.monitors.get('cli_runs', 0) % 3 == 2 and b'\x00' not in src and len(src) < 15000
+                ext = '.p8.png' if png else '.p8'
+                p1 = os.path.join(tmpd, ambient.BASE[0] + ext)
                 with open(p1, 'wb') as fh:
-                    fh.write(rc.write_p8_variant(ctx.rng, regions, src, version=ambient.VERSION[0]))
+                    if png:
+                        area = rc.raw_code_area(src) if len(src) % 2 else rc.code_area_from_items(rc.c_greedy(src), len(src))
+                        fh.write(rc.write_p8png(regions, area, 8))
+                    else:
+                        fh.write(rc.write_p8_variant(ctx.rng, regions, src, version=ambient.VERSION[0]))
                 argv = [ambient.vflag(), 'luamin'] + (['--keep-names-from-file', keep_file] if config == 'cli_keep_file' else []) + [p1]
                 if tool.main(argv):
                     raise RuntimeError('p8tool luamin failed')
-                out = rc.read_p8(open(os.path.join(tmpd, ambient.BASE[0] + '_fmt.p8'), 'rb').read())['code']
+                data = open(os.path.join(tmpd, ambient.BASE[0] + '_fmt' + ext), 'rb').read()
+                if png:
+                    # (the .p8.png reader's own normalisation is not at work here: the reference decoder returns the stored text)
+                    r = rc.read_p8png(data)
+                    out = rc.strip_future(rc.decode_code_area(r['code_area'], r['version']))
+                    ctx.feature('cli_png_carts')
+                else:
+                    out = rc.read_p8(data)['code']
                 if not src.endswith(b'\n') and out.endswith(b'\n'):
                     out = out[:-1] if not out[:-1].endswith(b'\n') or True else out
                 ctx.monitor('cli_runs')
@@ -282,6 +309,8 @@ def gates(m, tier):
     if f.get('code_plus_header_over_65535', 0) < 3 or f.get('code_plus_header_within_65535', 0) < 1:
         missed.append('carts at the character limit: over %d, within %d' % (f.get('code_plus_header_over_65535', 0),
                                                                            f.get('code_plus_header_within_65535', 0)))
+    if f.get('cli_png_carts', 0) < 20 or f.get('build_minify_png_carts', 0) < 10:
+        missed.append('minified .p8.png carts: luamin %d, build --lua-minify %d' % (f.get('cli_png_carts', 0), f.get('build_minify_png_carts', 0)))
     if mon.get('titles_compared', 0) < 200:
         missed.append('titles compared: %d' % mon.get('titles_compared', 0))
     return missed
